@@ -184,6 +184,13 @@ def gen_session(rng: random.Random, spec, *, p_invalid=0.0, p_query=0.0, p_reset
     for k in start_observers:
         events.append([3, k])
         construct(k)
+    if rng.random() < 0.2:
+        # sparsely observed session: most states are never looked at (a snapshot reads the schedule and the
+        # observers, and the checks attach their queries to snapshots), so lazily computed / cached values are
+        # first asked for several dispatches - or a whole reset - after they were last computed
+        p_snapshot *= 0.15
+        p_query *= 0.3
+        stats["sparse"] = 1
     if rng.random() < p_snapshot:
         events.append([7])
     target = None
@@ -191,17 +198,33 @@ def gen_session(rng: random.Random, spec, *, p_invalid=0.0, p_query=0.0, p_reset
     if rng.random() < stop_early:
         target = rng.randint(0, total)
     n_accepted = 0
+    # an episode abandoned right after its first dispatches (on instances that begin with zero-duration
+    # operations the schedule is then non-empty with makespan 0), followed by a full one
+    early_reset_at = rng.randint(1, 3) if p_reset > 0 and rng.random() < 0.12 else None
     while len(events) < max_events:
+        if early_reset_at is not None and n_accepted == early_reset_at:
+            early_reset_at = None
+            events.append([2])
+            tr.reset()
+            n_accepted = 0
+            stats["reset"] += 1
+            stats["early_reset"] = stats.get("early_reset", 0) + 1
+            if rng.random() < p_snapshot:
+                events.append([7])
+            continue
         r = rng.random()
         if r < p_invalid:
             iv = invalid_env_step(rng, tr) if env_mode else invalid_request(rng, tr)
             if iv is not None:
                 ev, kd = iv
                 ev = list(ev) + ([[]] if len(ev) == 3 and ev[0] == 0 else []) + [1]   # trailing 1 = meant to be rejected
-                if snapshot_around_invalid:
+                # (not every rejected request is bracketed by snapshots: looking at the state computes and caches
+                # things, and a rejected request must be harmless also when it is the first to touch a new state)
+                around = snapshot_around_invalid and rng.random() < 0.65
+                if around:
                     events.append([7])
                 events.append(ev)
-                if snapshot_around_invalid:
+                if around:
                     events.append([7])
                 stats["invalid"][kd] = stats["invalid"].get(kd, 0) + 1
                 continue
